@@ -140,7 +140,9 @@ Proof.
     apply BlocksInv_move_in in B'.
     destruct (try_alloc_inv k A b (live ++ slots b) l K (proj1 HI) (proj2 HI) HA (lay_ok_pow2 l Hwf))
       as (_ & _ & T & _ & _).
-    unfold slots. rewrite <- T. exact B'.
+    unfold slots. rewrite <- T.
+    eapply BlocksInv_head_inside; [exact B' | reflexivity |].
+    unfold region. cbn [fst snd tw_size tw_res tw_top]. lia.
 Qed.
 
 (* a zero-sized request never disturbs the other blocks: they are the same list *)
